@@ -32,7 +32,7 @@ def cases():
                   st.sampled_from([1.0, 1e-3, 1e3, 0.5, 4.0]))
     coef = st.lists(st.tuples(st.integers(-9, 9), st.sampled_from([1, 1, 2, 3, 4])).map(list), min_size=12, max_size=12)
     base = st.fixed_dictionaries({
-        'N': N, 'h': h, 'arel': st.floats(-4.0, 3.0), 'coef': coef, 'scaled': st.booleans(),
+        'N': N, 'h': h, 'arel': st.one_of(st.floats(-4.0, 3.0), st.sampled_from([-1.0, 0.0, -0.5, -2.0, 1.0])), 'coef': coef, 'scaled': st.booleans(),
         'deg': st.integers(0, 11), 'lam': st.sampled_from([2.0, -3.0, 0.5, 7.25]), 'shift': st.floats(-50.0, 50.0),
         'angle': st.floats(0.0, 6.283), 'px': st.floats(-10, 10), 'py': st.floats(-10, 10),
         'xstart': st.floats(-5, 5), 'other': st.sampled_from([1, 3, 5, 9, 13, 17, 21]),
